@@ -166,7 +166,7 @@ def h_write_input(ctx, program="gaussian", natom=2, tname="default", chg="set", 
         if tname == "t3":
             user["myfield"] = "hello"
             user["lot"] = "MP2"         # keyword argument overrides the object's / default value
-        if (tname == "t1" or (tname == "default" and chg == "set" and natom == 2 and not custom_atom_line)) and not wide:
+        if tname in ("t1", "default") and chg == "set" and natom == 2 and not custom_atom_line and not wide:
             # keyword arguments take precedence over what is derived from the object, field by field
             ov = ctx.choice(["none", "charge", "spinmult", "title"], label="user-override")
             if ov == "charge":
